@@ -164,6 +164,32 @@ func (s *LifeScenario) doOp(op CtlOp) {
 
 func (s *LifeScenario) PostDrain(k *sim.Kernel, left []string) []sim.Violation { return nil }
 
+// Forgive: a second Listen that was NOT refused (a Shutdown had already cleared
+// the serving state) runs as a second serving call next to the end of the first
+// one — a use the library does not support and no property promises anything
+// about; the first call's teardown may pull the listener from under it (nil
+// listener in its accept loop). A panic of the controller task inside that
+// Listen is not a finding of C14.
+func (s *LifeScenario) Forgive(k *sim.Kernel, v sim.Violation) bool {
+	if v.Clause != "no-panic" || !strings.Contains(v.Key, "task=ctl") || !strings.Contains(v.Detail, "varlink.(*Service).Listen(") {
+		return false
+	}
+	calls, refused := 0, 0
+	for _, e := range k.Log {
+		switch e.Kind {
+		case "bind2.call":
+			if e.Data == "listen" {
+				calls++
+			}
+		case "bind2.return":
+			if strings.HasPrefix(e.Data, "error") {
+				refused++
+			}
+		}
+	}
+	return calls > refused
+}
+
 func (s *LifeScenario) NonTrivial(k *sim.Kernel) bool {
 	for _, e := range k.Log {
 		if e.Kind == "serve.return" {
